@@ -11,6 +11,7 @@ CONSTANTS
   ResetChoices <- RepairedOnly
   TamperTags <- Replays
   CacheChoices = {"payload", "peer"}
+  AckCodeChoices <- CodeAcks
   Concurrent = FALSE
   RecordHist = FALSE
 INVARIANTS ReplayRejected SuccessSound
